@@ -546,7 +546,7 @@ ProtocolOK ==
     /\ Fired("attention") => Fired("mha_bias")
     /\ Fired("cos_sin_cache") => Fired("rotary_embedding")
     /\ Fired("partial_rotary_embedding") => Fired("cos_sin_cache")
-    /\ Fired("skip_rms_normalization") => Fired("rms_normalization")
+    /\ Fired("skip_rms_normalization") => (Fired("rms_normalization") \/ (cfg.fam = "rms" /\ cfg.sln # "pat"))
     /\ (Fired("gqa") \/ Fired("mha1") \/ Fired("mha2") \/ Fired("sdpa_via_mha")) => Fired("sdpa")
     /\ ~(Fired("mha1") /\ Fired("mha2"))
     /\ Fired("packed_qkv_for_gqa") => Fired("gqa")
